@@ -222,6 +222,9 @@ func (s *Set) Intersect(t Set) error {
 				max = telem.max
 				maxOpen = telem.maxOpen
 			}
+			if (minOpen || maxOpen) && min.equal(max) {
+				continue // The spans touch in one point that one of them excludes.
+			}
 			span, err := newSpan(min, minOpen, max, maxOpen)
 			if err != nil {
 				return err
